@@ -368,6 +368,8 @@ def install_generators(R):
         env = {'CLOCK': clock, 'TIMERS': timers, 'SENT': sent, 'QLOG': qlog}
         return s, env, now
 
+    R.mk_sched = mk
+
     def ptr(g, now, alias=None):
         from zeroconf._dns import DNSPointer
         from zeroconf import const
